@@ -344,15 +344,22 @@ def _s1_build(a):
 
 
 def _create(k, apid, tc, step, fn, ts):
+    """the helper of subservice k: called positionally as documented, and by the documented parameter names for every third
+    APID (a property of the case, so that a replay makes the same call)"""
     if k in (1, 3, 7):
         fnc = {1: s1.create_acceptance_success_tm, 3: s1.create_start_success_tm, 7: s1.create_completion_success_tm}[k]
-        return fnc(apid, tc, ts)
-    if k in (2, 4, 8):
+        names, vals = ("apid", "pus_tc", "timestamp"), (apid, tc, ts)
+    elif k in (2, 4, 8):
         fnc = {2: s1.create_acceptance_failure_tm, 4: s1.create_start_failure_tm, 8: s1.create_completion_failure_tm}[k]
-        return fnc(apid, tc, fn, ts)
-    if k == 5:
-        return s1.create_step_success_tm(apid, tc, step, ts)
-    return s1.create_step_failure_tm(apid, tc, step, fn, ts)
+        names, vals = ("apid", "pus_tc", "failure_notice", "timestamp"), (apid, tc, fn, ts)
+    elif k == 5:
+        fnc, names, vals = s1.create_step_success_tm, ("apid", "pus_tc", "step_id", "timestamp"), (apid, tc, step, ts)
+    else:
+        fnc = s1.create_step_failure_tm
+        names, vals = ("apid", "pus_tc", "step_id", "failure_notice", "timestamp"), (apid, tc, step, fn, ts)
+    if isinstance(apid, int) and apid % 3 == 0 and not core.POSITIONAL:
+        return fnc(**dict(zip(names, vals)))
+    return fnc(*vals)
 
 
 def _s1_redecode(s, ws, we):
@@ -453,16 +460,7 @@ def impl(op, a):
     if op == 745:
         k, apid = a[0]
         tc = _tc(a[1], a[2]); step = _opt_pfe(a[4]); fn = _opt_fn(a[5], a[6]); ts = bytes(a[3])
-        if k in (1, 3, 7):
-            fnc = {1: s1.create_acceptance_success_tm, 3: s1.create_start_success_tm, 7: s1.create_completion_success_tm}[k]
-            s = fnc(apid, tc, ts)
-        elif k in (2, 4, 8):
-            fnc = {2: s1.create_acceptance_failure_tm, 4: s1.create_start_failure_tm, 8: s1.create_completion_failure_tm}[k]
-            s = fnc(apid, tc, fn, ts)
-        elif k == 5:
-            s = s1.create_step_success_tm(apid, tc, step, ts)
-        else:
-            s = s1.create_step_failure_tm(apid, tc, step, fn, ts)
+        s = _create(k, apid, tc, step, fn, ts)
         raw = s.pack()
         return [list(raw)] + _vp_fields_raw(s.tc_req_id, s.step_id, s.failure_notice)
     if op == 746:
